@@ -133,6 +133,30 @@ fn run_script(case: &J) -> J {
                 return out;
             }
         };
+        // optionally replace import 0 by a built function of `repl` instructions before iterating
+        let repl = m0["repl"].as_u64().unwrap_or(0);
+        if repl > 0 {
+            let r = guarded(|| {
+                use wirm::opcode::Opcode;
+                let mut fb = wirm::ir::function::FunctionBuilder::new(&[], &[]);
+                let mut left = repl - 1; // the builder appends the final end
+                let mut i = 0u64;
+                while left >= 2 {
+                    fb.i32_const((900 + i) as i32);
+                    fb.drop();
+                    left -= 2;
+                    i += 2;
+                }
+                if left == 1 {
+                    fb.nop();
+                }
+                fb.replace_import_in_module(&mut module, wirm::ir::id::ImportsID(0));
+            });
+            if let Err(m) = r {
+                out["skip"] = json!(format!("harness: replace failed: {}", m));
+                return out;
+            }
+        }
         let sk: Vec<FunctionID> = skips[0].iter().map(|x| FunctionID(*x)).collect();
         let it = guarded(|| ModuleIterator::new(&mut module, &sk));
         match it {
